@@ -1,5 +1,6 @@
 """C08 -- angular separations equal the true great-circle angle (algebraic level)."""
 import math
+import fractions
 
 from vf import symx, symnp, loader, trig
 from vf.symx import sym_and, sym_or, sym_not, sym_ite, is_sym, SReal
@@ -33,6 +34,7 @@ def configs(tier):
                 continue
             out.append(("sphdist", n, units))
     out.append(("gcirc_same", 1, ("deg", "rad")))
+    out.append(("gcirc_shared", 1, ("deg", "rad")))
     out.append(("sphdist_same", 1, ("deg", "deg")))
     out.append(("gcirc_shift360", 0, ("deg", "rad")))
     if not q:
@@ -271,6 +273,17 @@ def harness(cx, cfg):
             uvs = co.eq2xyz = _UnitVectors(cx)
         f = getattr(co, base)
         kw = {"units": [unit_in, unit_out]} if base == "sphdist" else {}
+        if what.endswith("_shared"):
+            # the two points share storage: one float64 array is passed as the latitude of both
+            p = pts[0]
+            shared = symnp.array([p[1]])
+            ra1, ra2 = symnp.array([p[0]]), symnp.array([p[2]])
+            keep = [shared.tolist()[0], ra1.tolist()[0], ra2.tolist()[0]]
+            r = f(ra1, shared, ra2, shared, **kw)
+            cx.check("%s: the caller's arrays still hold degrees after the call" % base,
+                     all(a is b for a, b in zip(keep, [shared.tolist()[0], ra1.tolist()[0], ra2.tolist()[0]])))
+            _check_sep(cx, base, r.tolist()[0], [p[0], p[1], p[2], p[1]], unit_out, None)
+            return
         if what.endswith("_same"):
             p = pts[0]
             r = f(p[0], p[1], p[0], p[1], **kw)
@@ -326,6 +339,17 @@ def harness(cx, cfg):
                 for wname, (kind, rad) in list(cx.witness_defs.items()):
                     if kind == "sqrt" and poly.equal(rad, chord, cx.rules) and not poly.equal(rad, chord, []):
                         cx.check("sphdist: the squared chord is computed as a sum of squared differences (no cancellation for close points)", False)
+        if base == "sphdist" and uvs is not None and n <= 1:
+            # conditioning probe: sphdist is promised to 1e-11 degree everywhere, which an arccos of a value that
+            # can reach +-1 on this path cannot deliver (it loses half the digits at 0 and 180 degrees)
+            for pr_ in trig.st().log:
+                if pr_[0] == "arccos" and is_sym(pr_[1]):
+                    u_ = pr_[1]
+                    lim = 1 - fractions.Fraction(1, 10 ** 9)
+                    cx.hint(*[z3.Real(nm) == v for nm, v in (("x0", 1), ("y0", 0), ("z0", 0), ("x1", -1), ("y1", 0), ("z1", 0))])
+                    cx.hint(*[z3.Real(nm) == v for nm, v in (("x0", 1), ("y0", 0), ("z0", 0), ("x1", 1), ("y1", 0), ("z1", 0))])
+                    cx.check("sphdist: no arccos of a value that can reach +-1 (ill-conditioned at 0 / 180 degrees)",
+                             sym_and(u_ < lim, u_ > -lim))
         cells = r.tolist() if hasattr(r, "tolist") else [r]
         if not isinstance(cells, list):
             cells = [cells]
@@ -371,6 +395,18 @@ def replay(cand):
     what, n, units = cfg[0], cfg[1], tuple(cfg[2])
     base = what.split("_")[0]
     no = {"reproduced": False, "what": "agrees", "key": None}
+    if what.endswith("_shared"):
+        dec = np.array([20.0, -35.0, 60.0])
+        ra1, ra2 = np.array([10.0, 200.0, 359.0]), np.array([15.0, 210.5, 1.0])
+        keep = (dec.copy(), ra1.copy(), ra2.copy())
+        got = np.rad2deg(co.gcirc(ra1, dec, ra2, dec))
+        if not (np.array_equal(dec, keep[0]) and np.array_equal(ra1, keep[1]) and np.array_equal(ra2, keep[2])):
+            return {"reproduced": True, "key": "gcirc:shared-storage", "what": "gcirc overwrote its input arrays (dec %r -> %r)" % (keep[0].tolist(), dec.tolist())}
+        for i in range(3):
+            want = _true_sep(keep[1][i], keep[0][i], keep[2][i], keep[0][i])
+            if abs(got[i] - want) > 3e-6:
+                return {"reproduced": True, "key": "gcirc:shared-storage", "what": "gcirc(ra1, dec, ra2, dec) with one dec array for both points: %r degrees, true separation %r" % (float(got[i]), want)}
+        return no
     if what == "fpclip":
         # realised end to end: pairs whose cosine of the separation rounds to just outside [-1, 1] are
         # (nearly) coincident or antipodal points
@@ -411,7 +447,8 @@ def replay(cand):
         return no
     # adversarial companions of the model's points: the same call shapes with extra pairs
     extra = [[10.0, 20.0, 190.0, -20.0], [0.0, 0.0, 179.5, 0.0], [359.9, 45.0, 0.1, 45.0], [123.0, 89.9999, 303.0, 89.9999], [50.0, -30.0, 50.0, -30.0],
-             [200.0, 35.0, 200.00001, 35.000004], [77.7, -12.0, 77.7000001, -12.0]]
+             [200.0, 35.0, 200.00001, 35.000004], [77.7, -12.0, 77.7000001, -12.0],
+             [10.0, 20.0, 190.00001, -20.000005], [300.0, -45.0, 120.000002, 44.999999]]
 
     def conv(v, unit):
         return np.deg2rad(v) if unit == "rad" else v
@@ -423,7 +460,7 @@ def replay(cand):
             return co.sphdist(*args, units=[unit_in, unit_out])
         return co.gcirc(*args)
     tol = 1e-9 if base == "sphdist" else 3e-6
-    for pp, scalar in ((pts, n == 0), (pts + extra[: max(0, 3 - len(pts))], False), (extra[:3], False), (extra[1:2], True), (extra[3:5], False), (extra[5:7], False), (extra[5:6], True)):
+    for pp, scalar in ((pts, n == 0), (pts + extra[: max(0, 3 - len(pts))], False), (extra[:3], False), (extra[1:2], True), (extra[3:5], False), (extra[5:7], False), (extra[5:6], True), (extra[7:9], False), (extra[8:9], True)):
         if scalar and len(pp) != 1:
             continue
         if what.endswith("_same"):
